@@ -18,6 +18,20 @@ Proof.
   eapply small_le; [|exact Hs]. unfold ser_vote_ex in Hlen. rewrite !app_length in Hlen. lia.
 Qed.
 
+Definition ckey (c : str * str * str) : str := fst (fst c).
+Definition cvote (c : str * str * str) : str := snd (fst c).
+Definition cres (c : str * str * str) : str := snd c.
+
+(** every entry of a stored BP vote list is shorter than 78 bytes (39-byte peer id + amount) *)
+Definition bp_short (raw : str) : Prop :=
+  forall es, de_list (List.length raw) raw = Ok es -> Forall (fun e => (List.length e < 78)%nat) es.
+
+(** the amounts an update writes are short: staking records below 47 bytes (8 + amount), BP tally
+    entries below 78 bytes.  (Amounts are bounded by the total supply, 5*10^26 aer < 2^89.) *)
+Definition upd_bounded (u : sysupd) : Prop :=
+  (forall r, u_staking u = Some r -> (List.length r < 47)%nat) /\
+  Forall (fun c => issue_is_ex (ckey c) = false -> bp_short (cres c)) (u_changes u).
+
 Section W.
   Variable to_upper : str -> str.
   Variable b58dec : str -> str.
